@@ -87,6 +87,12 @@ CLAIMS["C13"] = dict(
     note="Proved: partition/write structure. Oracle only: that a file's stage outcome does not depend on file order or unrelated files (context building and checking are not modelled); I/O failures in the middle of the write loop are outside the model.",
     technique="Lean 4 proof over pipeline model + correspondence on real transpile_dir runs + metamorphic oracle",
     design="§5 C13")
+CLAIMS["C19"] = dict(
+    text="Unbounded Lean theorems on the model of format_err/format_location: render_no_panic (rendering succeeds for every message, source and cause list whenever each position is invisible or has a start column >= 1, the only underflowing arithmetic; a column-0 witness shows the guard is sharp), render_quotes_verbatim (a non-empty reported line is quoted exactly with its number; an empty one is shown as <unknown>, proved), caret_under_column (the caret run starts under the reported column and is get_width wide). "
+         "The model is tied to the real Display of TypeErr by a byte-for-byte correspondence on generated error descriptions (positions incl. invisible and out-of-range, CRLF and non-ASCII sources, causes). That every rejection carries non-empty diagnostics naming the file, with positions inside the text, verbatim quoted lines and a position on the faulty line is decided by an oracle on single-fault mutants (lexical, syntax, type faults on a recorded line).",
+    note="Proved: renderer. Oracle only: that errors of all stages carry path/source (with_source in lib.rs), and fault localisation. Context-building errors carry no path (<unknown>): exercised by C03/C13, not part of this check's mutants.",
+    technique="Lean 4 proof over renderer model + byte-exact correspondence + fault-localisation oracle",
+    design="§5 C19")
 NOT_YET = {}
 ALL = ["C%02d" % i for i in range(1, 21)]
 
